@@ -6,3 +6,4 @@ import XPathV.Theorems.C08
 #print axioms XPathV.Theorems.C08.literal_is_lexeme
 #print axioms XPathV.Theorems.C08.number_to_string_spec
 #print axioms XPathV.Theorems.C08.count_spec
+#print axioms XPathV.Theorems.C08.numeric_sources_ok
